@@ -8,7 +8,7 @@ import tempfile
 from . import drive
 from .drive import HangTimeout, cpu_guard
 
-FAIL_RE = re.compile(r"^(.*?):(\d+):(\d+): ([A-Za-z]+\d+): (.*)$")
+FAIL_RE = re.compile(r"^(.*?):(-?\d+):(-?\d+): ([A-Za-z]+\d+): (.*)$")
 
 ALL_RULE_IDS = None
 FIX_RULE_IDS = None
